@@ -1,0 +1,18 @@
+//go:build verif
+
+package pod
+
+import (
+	"k8s.io/apimachinery/pkg/runtime"
+	"k8s.io/client-go/tools/record"
+	"sigs.k8s.io/controller-runtime/pkg/client"
+
+	register "github.com/AliyunContainerService/terway/pkg/controller"
+	"github.com/AliyunContainerService/terway/pkg/vswitch"
+)
+
+// NewVerifReconcilePod builds the reconciler with injected dependencies (in production it is only
+// constructed from a manager.Manager inside the init() registration closure).
+func NewVerifReconcilePod(c client.Client, scheme *runtime.Scheme, aliyun register.Interface, swPool *vswitch.SwitchPool, rec record.EventRecorder, trunkMode, crdMode bool) *ReconcilePod {
+	return &ReconcilePod{client: c, scheme: scheme, aliyun: aliyun, swPool: swPool, record: rec, trunkMode: trunkMode, crdMode: crdMode}
+}
